@@ -86,8 +86,16 @@ def check_bodies(ctx, rule, bodies, only=None, what="panic-capable site"):
     return n, g, tb
 
 
+def _root(path):
+    import re as _re
+    return _re.sub(r"(::\{closure#\d+\})+$", "", path)
+
+
 def _match_exception(fn, s):
+    """A table entry is written for a construct of a function; the construct may sit in the function
+    itself or in one of its closures (`opt.map(|x| ..)` vs `if let Some(x) = opt`), so entries match
+    on the enclosing function and ignore the capture marker of the description."""
     for i, e in enumerate(EXCEPTIONS):
-        if e["fn"] == fn and e["what"] == s.what and q.wild(e["desc"], s.desc):
+        if _root(e["fn"]) == _root(fn) and e["what"] == s.what and (q.wild(e["desc"], s.desc) or q.wild(e["desc"].replace("^", ""), s.desc.replace("^", ""))):
             return i, e
     return None
